@@ -5,7 +5,7 @@ PATCH=$1; shift
 cd /repo || exit 2
 if [ -n "$(git status --porcelain)" ]; then echo "/repo is not clean"; exit 2; fi
 git apply "$PATCH" || { echo "patch does not apply"; exit 2; }
-trap 'git -C /repo checkout -- . ; git -C /repo clean -fdq' EXIT
+trap "git -C /repo checkout -- . ; git -C /repo clean -fdq" EXIT INT TERM
 export GOFLAGS=-mod=mod GOPROXY=off GOSUMDB=off GOTOOLCHAIN=local
 go build ./... || { echo "MUTANT DOES NOT BUILD"; exit 2; }
 for id in "$@"; do
